@@ -742,6 +742,16 @@ pub mod verif {
         blend_single(base_grid, new_grid, &params);
     }
 
+    /// `patch` (module-private path) for the harness crate.
+    pub fn patch(
+        image_header: &ImageHeader,
+        base_grid: &mut ImageWithRegion,
+        patch_ref_grid: &ImageWithRegion,
+        patch_ref: &PatchRef,
+    ) -> Result<()> {
+        super::patch(image_header, base_grid, patch_ref_grid, patch_ref)
+    }
+
     /// Blends one sample of channel `channel_idx` as a frame with the given blending info would.
     pub fn blend_frame_pixel(
         channel_idx: usize,
